@@ -96,6 +96,15 @@ def _multi():
     )
     m = ("mapvalues", inner, [("A", ("opt", "M"))])
     out.append(("multi:map over cached", [("apply", m, ("fn", "f_list")), inner], [A3, ("M", [ABSENT, [1, 2], [2, 3]])]))
+    # a memoizing consumer over a materialised Map whose mapped key is the dispatch value of the mapped expression:
+    # every element of the product reads different options, and all of them belong to the consumer's fingerprint
+    msw = ("switch", ("optkey", "D"), [("x", ("opt", "A")), ("y", ("opt", "B"))], ("val", "dflt"))
+    mm = ("apply", ("mapvalues", msw, [("D", ("opt", "M"))]), ("fn", "f_list"))
+    M4 = ("M", [ABSENT, ["x", "y"], ["y", "x"], ["zz", "y"]])
+    out.append(("multi:consumer of map over dispatch", [("ds", "user", {"params": [mm]}), ("cached", mm, "c")], [A3, B3, M4]))
+    mds = ("ds", "mbase", {"params": [("opt", "A")], "dispatch": ("optkey", "D"), "overloads": [("y", ("opt", "B"))], "cache": "none"})
+    mm2 = ("apply", ("mapvalues", mds, [("D", ("opt", "M"))]), ("fn", "f_list"))
+    out.append(("multi:consumer of map over dataset dispatch", [("ds", "user", {"params": [mm2]})], [A3, B3, M4]))
     sw = ("switch", ("optkey", "D"), [("x", inner), ("y", ("ds", "other", {"params": [("opt", "B")]}))], ("val", "dflt"))
     out.append(("multi:cached switch", [("cached", sw, "c"), inner], [A3, B3, ("D", [ABSENT, "x", "y", "zz"])]))
     co = ("coalesce", [inner, ("ds", "other", {"params": [("opt", "B")]}), ("val", "none")])
